@@ -14,6 +14,12 @@ def reader_cfgs(rows):
     for (name, kind, workers, chunks, kw, mode) in rows:
         kw = dict(kw)
         extra = kw.pop("extra", None)   # data-level variations that do not change the concurrency model
+        detail = list(chunks)
+        # "U" (dependent uncompressed chunk) and "P" (uncompressed + props-reset LZMA chunk, both dependent) are
+        # data-level variations of a dependent chunk: the concurrency model sees "D"
+        chunks = ["D" if k in ("U", "P") else k for k in chunks]
+        if detail != chunks:
+            extra = dict(extra or {}, chunks=detail)
         consts = mtlib.reader_consts(kind, workers, chunks, **kw)
         cfg = dict(name=name, fam=kind + "_reader", consts=consts, mode=mode, extra=extra, **READER)
         if kind == "lzip":
@@ -54,7 +60,7 @@ def _design_spur(cfg):
     return core.run_tlc(mod, cfgf, workers=3, timeout=900, cwd=d, coverage=False)
 
 
-def run_plan(ctx, props, plan, quick, extra_random=None):
+def run_plan(ctx, props, plan, quick, extra_random=None, lzip_scan=False):
     run = mtcommon.MtRun(ctx, props)
     seed = ctx.seed
     rnd = random.Random(seed)
@@ -189,6 +195,8 @@ def run_plan(ctx, props, plan, quick, extra_random=None):
     ctx.add("tour_divergences", nd)
     ctx.add("tour_enabled_set_mismatches", ne)
 
+    if lzip_scan:
+        lzip_scan_stage(ctx, run, quick)
     # ---------------- stage 3: TLC validates recorded traces against the as-built design
     t0 = time.time()
     groups = {}
@@ -302,3 +310,59 @@ def run_replay(ctx, props, path):
                     "states": 1, "transitions": 1, "traces_validated_against_impl": 0})
     ctx.sample(s)
     ctx.finish()
+
+
+def lzip_scan_stage(ctx, run, quick):
+    """LZIPReaderMT::new: backward member scan (spec/LzipScan.tla). TLC: progress + termination for every content of
+    the size fields; real code: every single-field trailer damage of a 3-member file under an operation budget,
+    observed seeks validated by TLC against the spec with the real constants."""
+    base = {"FileLen": "9", "Trailer": "2", "MinFile": "3"}
+    d, mod, cfg = core.write_model("LzipScan", dict(base, ZeroSizeRejected="TRUE"), spec="Spec",
+                                   invariants=["TypeOK", "Ordered"], properties=["Progress", "Terminates"])
+    r = core.run_tlc(mod, cfg, workers=2, cwd=d)
+    ctx.note_tlc("design LzipScan", r)
+    if not r.ok:
+        raise ToolError(f"LzipScan as-built design violates {r.violated}")
+    ctx.require_coverage(r, ["ReadTrailer", "BadSize", "ReadHeader", "Break"], "LzipScan")
+    d, mod, cfg = core.write_model("LzipScan", dict(base, ZeroSizeRejected="FALSE"), spec="Spec",
+                                   invariants=["TypeOK", "Ordered"], properties=["Progress", "Terminates"])
+    r2 = core.run_tlc(mod, cfg, workers=2, cwd=d)
+    ctx.add("regression_models_checked")
+    if r2.ok:
+        raise ToolError("LzipScan: the regressed variant (zero size accepted) should violate progress")
+    scns = []
+    n = 3
+    for k in range(n):
+        for field in (0, 1, 2):
+            for mode in (0, 1, 2, 3):
+                if field == 2 and mode > 0:
+                    continue
+                scns.append({"id": f"scan-{k}-{field}-{mode}", "family": "lzip_reader", "chunks": ["M"] * n, "workers": 2,
+                             "policy": {"kind": "random", "seed": ctx.seed + len(scns)}, "op_budget": 4000,
+                             "lzip_damage": [k, field, mode]})
+    scns.append({"id": "scan-clean", "family": "lzip_reader", "chunks": ["M"] * n, "workers": 2,
+                 "policy": {"kind": "random", "seed": ctx.seed}, "op_budget": 4000})
+    if not quick:
+        for nm in (1, 2, 5):
+            for k in range(nm):
+                for mode in (0, 1, 2, 3):
+                    scns.append({"id": f"scan{nm}-{k}-0-{mode}", "family": "lzip_reader", "chunks": ["M"] * nm, "workers": 3,
+                                 "policy": {"kind": "pct", "seed": ctx.seed + len(scns), "depth": 2}, "op_budget": 6000,
+                                 "lzip_damage": [k, 0, mode]})
+    res = mtlib.run_scenarios(scns)
+    run.judge_all(scns, res, "lzip-scan")
+    events = []
+    for r_ in res:
+        if not r_.get("budget_blown"):
+            events += mtlib.scan_events(r_)
+    ok, reached, total, tr = core.validate_events("Trace_LzipScan", {"FileLen": "0", "Trailer": "20", "MinFile": "26",
+                                                                     "ZeroSizeRejected": "TRUE"}, events,
+                                                  invariants=("Track",))
+    ctx.note_tlc("trace LzipScan", tr)
+    if ok:
+        run.traces_ok += len(res)
+    else:
+        run.traces_rejected += 1
+        ctx.note_drift(f"Trace_LzipScan rejected the observed member scans after event {reached} of {total}: "
+                       f"{events[reached] if reached is not None and reached < len(events) else '?'}")
+    log(f"[lzip-scan] {len(scns)} damaged files scanned; trace {'accepted' if ok else 'REJECTED'} ({total} events)")
